@@ -36,6 +36,8 @@ type dlgModel struct {
 	next        int // next scripted in-dialog request
 	probesHit   map[string]int
 	cross       bool // the SUBSCRIBE was relayed through another listener than the one it arrived at
+	earlySent   bool
+	scripted    int // number of scripted in-dialog requests (early ones are appended behind them)
 }
 
 type dlgWorld struct {
@@ -391,7 +393,7 @@ func genDialogOp(g *gen, c *Cfg, n int, typ string) Op {
 	op := Op{Kind: "dialog", ID: id, Listen: li, DelayUs: int64(g.intn(20000)),
 		S: map[string]string{"type": typ, "callID": "call-" + id + "@" + g.alnum(3, 6), "fromURI": fromURI, "toURI": toURI,
 			"fromTag": g.tagValue(), "toTag": g.tagValue(), "ruri": svcRURI(g, c), "ua": ua, "ua2": ua2},
-		I: map[string]int{"prov": g.intn(3), "style": g.intn(1000)}}
+		I: map[string]int{"prov": g.intn(3), "style": g.intn(1000), "early": g.intn(4)}}
 	nreq := g.rng(1, 5)
 	meths := []string{"INFO", "UPDATE", "INVITE", "MESSAGE", "REFER", "NOTIFY", "OPTIONS", "PRACK", "PUBLISH"}
 	if typ == "subscribe" {
@@ -484,7 +486,7 @@ func (d *dlgWorld) sendRequest(from string, li int, data []byte, id string) {
 
 // startDialog launches the scripted dialog op (kernel context).
 func (d *dlgWorld) startDialog(op *Op) {
-	m := &dlgModel{id: op.ID, typ: op.S["type"], listen: op.Listen, op: op, probesHit: map[string]int{}}
+	m := &dlgModel{id: op.ID, typ: op.S["type"], listen: op.Listen, op: op, probesHit: map[string]int{}, scripted: len(op.Sub)}
 	d.dialogs[op.ID] = m
 	ids := idsOf(op)
 	d.byCall[ids.callID] = m
@@ -641,7 +643,11 @@ func (d *dlgWorld) installStickyRules(prop string) {
 			case 2:
 				out = append(out, respPlan{delay: base, status: 180, toTag: ids.toTag, expires: -1})
 			}
-			out = append(out, respPlan{delay: base + time.Duration(200+w.K.Draw(3000))*time.Microsecond, status: 200, toTag: ids.toTag, expires: -1})
+			final := base + time.Duration(200+w.K.Draw(3000))*time.Microsecond
+			if mod.op.I["prov"] == 2 && mod.op.I["early"] > 0 {
+				final += 20 * time.Millisecond // room for an early-dialog exchange
+			}
+			out = append(out, respPlan{delay: final, status: 200, toTag: ids.toTag, expires: -1})
 			return out
 		case step == "sub":
 			return []respPlan{{delay: base, status: 200, toTag: ids.toTag, expires: -1}}
@@ -689,6 +695,21 @@ func (d *dlgWorld) installStickyRules(prop string) {
 				sort.Strings(bs)
 				b := bs[mod.op.I["style"]%len(bs)]
 				d.subscribeFromBackend(mod, b)
+			}
+		case step == "e0":
+			if _, isBackend := d.backends[party]; !isBackend || mod.dontcare {
+				return
+			}
+			if distinctCount(d.reached[mod.id+".inv"]) > 1 {
+				return
+			}
+			w.Stats["judged:"+prop]++
+			if party != mod.pinned {
+				mod.dontcare = true
+				w.Viol = append(w.Viol, Violation{Prop: prop, Rule: "in-dialog-request-left-its-backend", Msg: id, Sig: "type=invite;early-dialog",
+					Detail: fmt.Sprintf("early-dialog request %s of dialog %s (a tagged 18x from %s was observed, the final answer not yet) reached backend %s\n%s", id, mod.id, mod.pinned, party, clip(string(mustBytes(m)), 400))})
+			} else {
+				w.stat("in-dialog-request-at-pinned-backend")
 			}
 		case strings.HasPrefix(step, "s"):
 			idx, _ := strconv.Atoi(step[1:])
@@ -774,6 +795,14 @@ func (d *dlgWorld) installStickyRules(prop string) {
 			mod.established = true
 			mod.pinned = src
 			mod.pinnedAt = w.K.Elapsed()
+			if m.Status < 200 && !mod.earlySent && mod.op.I["early"] > 0 {
+				// an early dialog (tagged 18x): PRACK / UPDATE / INFO before the final answer
+				mod.earlySent = true
+				meth := []string{"PRACK", "UPDATE", "INFO"}[mod.op.I["early"]%3]
+				id := mod.id + ".e0"
+				d.sendRequest(ids.ua, mod.listen, ids.request(reqOpts{method: meth, cseq: 5, style: mod.op.I["style"] + 7, srcAddr: ids.ua, id: id}), id)
+				w.stat("probe:early-dialog-request-before-final-answer")
+			}
 			if m.Status >= 200 && first || (m.Status >= 200 && mod.next == 0) {
 				if mod.next == 0 {
 					// ACK, then the scripted requests
